@@ -1,11 +1,5 @@
 CONSTANTS KFSkip = {}  Impl = "checked"
 SPECIFICATION Spec
-INVARIANT TypeOK
-INVARIANT AdmittedWellFormed
-INVARIANT SuccessOnlyIfAdmitted
-INVARIANT NothingForStrangers
-INVARIANT ReportedBounded
+CONSTRAINT JudgeOnly
 INVARIANT JudgeOK
-INVARIANT CanFinish
-INVARIANT LeakRefused
 CHECK_DEADLOCK FALSE
